@@ -49,6 +49,29 @@ CLAIMED.update({
          "Per world: all-valid batches, empty batch, one invalid item at every position (size<=16) per kind, complementary pairs at every pair (size<=8), 3 verifier streams each.",
          "The 2^-128 bound itself is not measurable.", "DESIGN.md §5 C19"),
 })
+CLAIMED.update({
+ "C02": ("exploration", "deterministic simulation in recording mode (random-source and wire seams) + refinement of the recorded history against an independent executable reference model (Python RFC 9591 / BIP-340 implementation pinned to the RFC vectors)",
+         "Every recorded session of a sampled population of worlds is recomputed by the reference from (shares, the 32+32 random bytes per signer, message, identifiers): nonces, commitments, binding factors, group commitment, shares, signature compared byte for byte; identifier sweep; single-signer signatures cross over both ways.",
+         "Trusted base: the Python reference (refuses to run unless it reproduces the RFC vectors). No schedule in this oracle (DESIGN.md §6).", "DESIGN.md §5 C02"),
+ "C12": ("exploration", "deterministic simulation + seeded fault injection on the bytes of every envelope and stored slot (bit flips, byte substitution, length faults, hostile dictionary from the independent reference, version / ciphersuite-id faults, cross-suite misdelivery); canonicity oracle decode => re-encode equals input",
+         "Around every valid fixed-size encoding seen in a simulated deployment: all single-bit flips, all values of first/last byte, random substitutions and strings, wrong lengths, hostile encodings; composite types: binary+JSON round trip, header faults, cross-suite payloads. ~3.7M decodes per quick run.",
+         "Sampling around valid encodings, never all 2^264 strings; composite postcard encodings are not required to reject trailing bytes.", "DESIGN.md §5 C12"),
+ "C14": ("exploration", "deterministic simulation + high-rate seeded corruption / Byzantine faults on every envelope kind and stored slot and adversarial well-typed arguments to every protocol entry point, each call under catch_unwind with overflow checks and debug assertions on",
+         "~1.3M decoder inputs (structure-aware mutations, JSON structure damage, cross-suite payloads) + ~270k adversarial entry-point calls per quick run; any panic is a violation with the exact bytes / argument description.",
+         "A search for a counter-example: a clean batch is evidence, not proof. Honest local state.", "DESIGN.md §5 C14"),
+ "C15": ("exploration", "deterministic simulation with the random-source seam in recording and fault modes (constant, repeating 32/64, counter, replayed, shared between signers); oracle = RFC nonce derivation (suite H3 in harness + Python reference) and 'equal iff (window, share) equal' over the history",
+         "Every commit of simulated deployments plus dedicated commit/preprocess(k) histories on faulty sources; exact consumption (two 32-byte requests per pair), H3 derivation, commitments, non-zero, disjoint windows.",
+         "'Uniform' is not measurable.", "DESIGN.md §5 C15"),
+ "C16": ("exploration", "deterministic simulation with the random-source seam: twin runs of every randomised entry point on recorded / replayed / different / per-draw-perturbed streams",
+         "For each of 10 entry points and sampled (n,t): reproducible bit for bit on the same stream, every listed secret-derived value changes on another stream, each draw matters, each value hangs on its own draw, values pairwise distinct, draws >= values.",
+         "Draw counts are lower bounds. Batch blinders are not observable (consumption + C19).", "DESIGN.md §5 C16"),
+ "C18": ("exploration", "deterministic simulation of Taproot sessions (honest-path faults, Byzantine signers) with the 8 parity cells steered from public observations; oracles: libsecp256k1, independent k256+sha2 BIP-341 code, Python BIP-340/341",
+         "Seeded search; each run is assigned a parity cell and reaches it (else harness error); signatures verify under the independently derived output key, not under the untweaked key; culprit naming identical in every cell.",
+         "Evidence, not proof.", "DESIGN.md §5 C18"),
+ "C20": ("other", "deterministic simulation to populate live secrets, then state inspection at simulated teardown: drop_in_place in a harness-owned slot + allocator seam scanning heap blocks at release; zeroize() re-read; Debug renderings searched for every encoding; non-interference renderings",
+         "All secret-bearing types x values from simulated worlds; controls (ManuallyDrop, Copy type, un-wiped heap block) must still show the secret or the run is a harness error.",
+         "Observes what the drop glue writes in this build; compiler dead-store elimination elsewhere is out of reach. No schedule in this oracle.", "DESIGN.md §5 C20"),
+})
 NOT_YET = "check not built yet in this round (planned, see DESIGN.md §5)"
 
 checks = []
